@@ -252,6 +252,19 @@ Section Hier.
     | (a, x) :: r => if ty_eqb a t then Some x else assoc_ty t r
     end.
 
+  (* classifier of KF-01 for arbitrary declared types: at some supplied slot two applicable registered types that
+     the order leaves unrelated (NONE) nevertheless get different levels (layer indices order unrelated types) *)
+  Definition level_artifact (ms : list meth) (k : key) : bool :=
+    existsb (fun st : slot * ty =>
+               match levels (slot_types ms (fst st)) (snd st) with
+               | Ok tab =>
+                   existsb (fun p1 : ty * nat =>
+                     existsb (fun p2 : ty * nat =>
+                       negb (Nat.eqb (snd p1) (snd p2)) &&
+                       match typeorder (fst p1) (fst p2) with Some NONE => true | _ => false end) tab) tab
+               | Err _ => true
+               end) (key_slots k).
+
   (* ---------- MultiTypeMap.mro ---------- *)
   Definition arity_ok (m : meth) (nargs : nat) (names : list nat) : bool :=
     Nat.leb (m_req m) nargs && Nat.leb nargs (m_max m) && forallb (fun k => memb k names) (m_reqkw m).
